@@ -29,6 +29,77 @@ def loops_of(f):
     return [n for n in f.walk() if n["k"] in ("ForStmt", "WhileStmt", "DoStmt")]
 
 
+def replace_rule(prog, run, rid, alphabet="ab", patterns=("", "a", "b", "aa", "ab", "ba", "bb"), replacements=("", "a", "ab", "bbb"), maxlen=4):
+    """SimpleString::replace(const char*, const char*) folded over every string of the alphabet up to maxlen x patterns x
+    replacements against Python's non-overlapping left-to-right replacement (shared with C16: the XML escaper is built on it)"""
+    # replace(const char*, const char*): folded for every string over {a,b} up to 4 chars, 7 patterns, 4 replacements
+    rp = [f for f in prog.fns(SS + "::replace") if f.params and f.params[0]["ct"] == "const char *"]
+    if rp:
+        rp = rp[0]
+        run.analysed(rp)
+
+        def fold_replace(s_, t_, w_):
+            env = {"buffer_": ("ptr", "S", 0), "bufferSize_": len(s_) + 1, rp.params[0]["name"]: ("ptr", "T", 0), rp.params[1]["name"]: ("ptr", "W", 0)}
+            for nm, st in (("S", s_), ("T", t_), ("W", w_)):
+                for i_, ch in enumerate(st + "\0"):
+                    env["%s[%d]" % (nm, i_)] = ord(ch)
+            allocs, res = [], {}
+
+            def alloc(n_, *a_):
+                allocs.append(n_)
+                return ("ptr", "N", 0)
+
+            def setbuf(p_, n_):
+                res["set"] = (p_, n_)
+                return 0
+
+            def setempty():
+                res["empty"] = True
+                return 0
+            ev = Evaluator(prog, rp, env=env, calls={SS + "::allocStringBuffer": alloc, SS + "::setInternalBufferTo": setbuf, SS + "::setInternalBufferAsEmptyString": setempty})
+            ev.inline = {g.qn for g in prog.functions.values() if g.qn.startswith(SS + "::")} - set(ev.calls)
+            ev.run_blocks(rp.entry, max_steps=8000)
+            st = [(int(k[2:-1]), v) for k, v in ev.stores if k.startswith("N[")]
+            if not allocs and not res:
+                return s_, None
+            if res.get("empty"):
+                return "", None
+            if len(allocs) != 1 or "set" not in res:
+                return None, "allocations %s, installed %s" % (allocs, res)
+            if res["set"] != (("ptr", "N", 0), allocs[0]):
+                return None, "allocated %d bytes, installed %s" % (allocs[0], (res["set"],))
+            oob = [k for k, v in st if k >= allocs[0] or k < 0]
+            if oob:
+                return None, "allocated %d bytes, writes index %d" % (allocs[0], oob[0])
+            mem = dict(st)
+            got, i_ = "", 0
+            while mem.get(i_):
+                got += chr(mem[i_])
+                i_ += 1
+            if mem.get(i_) != 0:
+                return None, "the new buffer is not NUL-terminated inside its %d bytes" % allocs[0]
+            return got, None
+        bad, ncase, unk = None, 0, None
+        for L in range(0, maxlen + 1):
+            for s_ in map("".join, itertools.product(alphabet, repeat=L)):
+                for t_ in patterns:
+                    for w_ in replacements:
+                        ncase += 1
+                        try:
+                            got, err = fold_replace(s_, t_, w_)
+                        except Unknown as u:
+                            unk = unk or "replace(%r, %r) on %r: %s" % (t_, w_, s_, u)
+                            continue
+                        want = s_.replace(t_, w_) if t_ else s_
+                        if bad is None and (err or got != want):
+                            bad = {"string": s_, "to": t_, "with": w_, "folded": got, "expected": want, "error": err}
+        if unk:
+            run.broke("%s.%s: replace cannot be folded: %s" % (run.pid, rid, unk))
+        run.ob(rid, "replace folded for every string over {%s} of up to %d chars x %d patterns (incl. empty, self-overlapping, repeated) x %d replacements:" % (",".join(alphabet), maxlen, len(patterns), len(replacements)) + " one allocation, every write inside it, NUL-terminated, installed with its size, content = non-overlapping left-to-right replacement; empty pattern is a no-op", rp.site, bad is None,
+               witness=bad or "%d cases" % ncase, what="" if bad is None else "replace(%r, %r) on %r: %s" % (bad["to"], bad["with"], bad["string"], bad["error"] or "gives %r, expected %r" % (bad["folded"], bad["expected"])))
+
+
+
 def substring_bound_rule(prog, run, rid):
     """every subString overload forms a pointer into the buffer at a caller-given offset only under offset < size()
     (shared with C12: the command-line slicing relies on subString being total)"""
@@ -300,71 +371,7 @@ def check(ctx, run):
                 else:
                     run.ob("R2", "%s: %s" % (f.qn, txt), f.site, False, witness={"facts": sorted("%s%s" % ("" if v else "!", k) for k, v in facts_at(f, f.where_enclosing(n))), "origin": akey(f, n)},
                            what="unsigned subtraction without a dominating fact that excludes wrap-around; the result is used as an index, length or bound")
-    # replace(const char*, const char*): folded for every string over {a,b} up to 4 chars, 7 patterns, 4 replacements
-    rp = [f for f in prog.fns(SS + "::replace") if f.params and f.params[0]["ct"] == "const char *"]
-    if rp:
-        rp = rp[0]
-        run.analysed(rp)
-
-        def fold_replace(s_, t_, w_):
-            env = {"buffer_": ("ptr", "S", 0), "bufferSize_": len(s_) + 1, rp.params[0]["name"]: ("ptr", "T", 0), rp.params[1]["name"]: ("ptr", "W", 0)}
-            for nm, st in (("S", s_), ("T", t_), ("W", w_)):
-                for i_, ch in enumerate(st + "\0"):
-                    env["%s[%d]" % (nm, i_)] = ord(ch)
-            allocs, res = [], {}
-
-            def alloc(n_, *a_):
-                allocs.append(n_)
-                return ("ptr", "N", 0)
-
-            def setbuf(p_, n_):
-                res["set"] = (p_, n_)
-                return 0
-
-            def setempty():
-                res["empty"] = True
-                return 0
-            ev = Evaluator(prog, rp, env=env, calls={SS + "::allocStringBuffer": alloc, SS + "::setInternalBufferTo": setbuf, SS + "::setInternalBufferAsEmptyString": setempty})
-            ev.inline = {g.qn for g in prog.functions.values() if g.qn.startswith(SS + "::")} - set(ev.calls)
-            ev.run_blocks(rp.entry, max_steps=8000)
-            st = [(int(k[2:-1]), v) for k, v in ev.stores if k.startswith("N[")]
-            if not allocs and not res:
-                return s_, None
-            if res.get("empty"):
-                return "", None
-            if len(allocs) != 1 or "set" not in res:
-                return None, "allocations %s, installed %s" % (allocs, res)
-            if res["set"] != (("ptr", "N", 0), allocs[0]):
-                return None, "allocated %d bytes, installed %s" % (allocs[0], (res["set"],))
-            oob = [k for k, v in st if k >= allocs[0] or k < 0]
-            if oob:
-                return None, "allocated %d bytes, writes index %d" % (allocs[0], oob[0])
-            mem = dict(st)
-            got, i_ = "", 0
-            while mem.get(i_):
-                got += chr(mem[i_])
-                i_ += 1
-            if mem.get(i_) != 0:
-                return None, "the new buffer is not NUL-terminated inside its %d bytes" % allocs[0]
-            return got, None
-        bad, ncase, unk = None, 0, None
-        for L in range(0, 5 + DEEP):
-            for s_ in map("".join, itertools.product("ab", repeat=L)):
-                for t_ in ("", "a", "b", "aa", "ab", "ba", "bb"):
-                    for w_ in ("", "a", "ab", "bbb"):
-                        ncase += 1
-                        try:
-                            got, err = fold_replace(s_, t_, w_)
-                        except Unknown as u:
-                            unk = unk or "replace(%r, %r) on %r: %s" % (t_, w_, s_, u)
-                            continue
-                        want = s_.replace(t_, w_) if t_ else s_
-                        if bad is None and (err or got != want):
-                            bad = {"string": s_, "to": t_, "with": w_, "folded": got, "expected": want, "error": err}
-        if unk:
-            run.broke("C13.R2: replace cannot be folded: %s" % unk)
-        run.ob("R2", "replace folded for every string over {a,b} of up to 4 chars x 7 patterns (incl. empty, self-overlapping) x 4 replacements: one allocation, every write inside it, NUL-terminated, installed with its size, content = non-overlapping left-to-right replacement; empty pattern is a no-op", rp.site, bad is None,
-               witness=bad or "%d cases" % ncase, what="" if bad is None else "replace(%r, %r) on %r: %s" % (bad["to"], bad["with"], bad["string"], bad["error"] or "gives %r, expected %r" % (bad["folded"], bad["expected"])))
+    replace_rule(prog, run, "R2", maxlen=4 + DEEP)
 
     # ---------------- R3 ----------------------------------------------------
     gp = prog.fn(SS + "::getPrintableSize")
